@@ -144,9 +144,10 @@ def okArg : Sexp → Sexp | list [atom "ok", x] => x | x => x
 def csvImportOk (text : String) (impl : Sexp) : Bool × String :=
   if impl == sPanic then (false, "panic") else
   let cs := text.toList
-  if !simpleDialect cs then (true, "unmodelled-dialect") else
   if text.isEmpty then (isOkS impl && decTable (okArg impl) == ⟨[], []⟩, "empty-text") else
-  let recs := csvRecords cs
+  match csvRecordsAny cs with
+  | none => (true, "unmodelled-dialect")
+  | some recs =>
   -- independent reading of the file
   match recs with
   | [] => (isErrS impl, "no-records")
@@ -428,12 +429,14 @@ def handle (prop op : String) (args : List Sexp) (impl : Sexp) : Reply :=
   -- C16 / C17 / C18 ----------------------------------------------------------------------------------
   | "csv.from", [s] =>
     let text := decStr s
-    if !simpleDialect text.toList then ⟨true, atom "unmodelled", impl != sPanic, "panic"⟩ else
-    let m := match fromCsvString text with
-      | .ok t => sOk (encTable t)
-      | .error e => sErr (csvErrName e)
-    let r := csvImportOk text impl
-    ⟨(isOkS m && m == impl) || (isErrS m && isErrS impl), m, r.1, r.2⟩
+    match fromCsvStringAny text with
+    | none => ⟨true, atom "unmodelled", impl != sPanic, "panic"⟩
+    | some res =>
+      let m := match res with
+        | .ok t => sOk (encTable t)
+        | .error e => sErr (csvErrName e)
+      let r := csvImportOk text impl
+      ⟨(isOkS m && m == impl) || (isErrS m && isErrS impl), m, r.1, r.2⟩
   | "csv.to", [t, fi, fo] =>
     let x := decTable t
     let text := toCsvFormatted x (fmtOf fi) (fmtOf fo)
